@@ -50,6 +50,7 @@ struct FlowCtx {
     bool tainted = false;                              // the real sender failed O-ENC: decoders fed by it are not judged
     int lastnull_enc = -1, lastnull_dec = -1;
     bool probe_failed = false;
+    bool candidate = false, tried = false;
 };
 
 struct CbEvent { uint32_t esi, size; void *ret; bool already_received; bool already_available; };
@@ -129,6 +130,8 @@ struct Executor {
         } // "zero": nothing
     }
 
+    // cheap part: is this block worth materialising at all? (The expensive part - payload, reference code, reference
+    // symbols - is done by materialise() when the first session of the flow has been accepted by the library.)
     FlowCtx &flow_ctx(int id) {
         auto it = flows.find(id);
         if (it != flows.end()) return it->second;
@@ -138,14 +141,24 @@ struct Executor {
         const Flow &f = *fc.f;
         fc.family = family_of(f.codec, f.m);
         if (!materialisable(f) || fc.family < 0) return fc;
-        Domain d = in_domain(f.codec, f.m, f.k, f.r, f.E, f.N1, f.pseed);
+        // generously (far beyond the default limits): whether a session is *configured* is decided against the limits the
+        // session itself advertises
+        Domain d = in_domain(f.codec, f.m, f.k, f.r, f.E, f.N1, f.pseed, f.codec == C_LDPC ? 150000 : 0, f.codec == C_LDPC ? 150000 : 0);
         if (f.codec == C_2D) {
             // whatever (k, n-k) the codec accepts in the property's range is probed, product shape or not
             if (f.k > 16 || f.k + f.r > 24) return fc;
         } else if (!d.inside) return fc;
+        fc.candidate = true;
+        return fc;
+    }
+
+    void materialise(FlowCtx &fc) {
+        if (fc.ok || !fc.candidate || fc.tried) return;
+        fc.tried = true;
+        const Flow &f = *fc.f;
         gen_payload(fc);
         if (f.codec == C_LDPC) fc.code = h5170(f.k, f.r, f.N1, f.pseed);
-        else if (f.codec == C_2D) { fc.code = probe_2d(f); if (!fc.code) { fc.src.clear(); return fc; } }
+        else if (f.codec == C_2D) { fc.code = probe_2d(f); if (!fc.code) { fc.src.clear(); return; } }
         fc.ref_rep.assign(f.r, {}); fc.ref_have.assign(f.r, 0);
         if (fc.code) {
             std::vector<const uint8_t *> sp(f.k);
@@ -154,13 +167,12 @@ struct Executor {
             std::fill(fc.ref_have.begin(), fc.ref_have.end(), 1);
         }
         if (opt.packets) {
-            auto pit = opt.packets->real_rep.find(id);
+            auto pit = opt.packets->real_rep.find(f.id);
             if (pit != opt.packets->real_rep.end()) fc.real_rep = pit->second;
-            auto tit = opt.packets->tainted.find(id);
+            auto tit = opt.packets->tainted.find(f.id);
             if (tit != opt.packets->tainted.end()) fc.tainted = tit->second;
         }
         fc.ok = true;
-        return fc;
     }
 
     // Codec 5: which repair symbol protects which sources is the implementation's choice, so the equations are read
@@ -560,7 +572,15 @@ struct Executor {
         const Flow &f = *sc.fc->f;
         ad_params p{f.k, f.r, f.E, (uint32_t)sc.s->m, f.N1, f.pseed};
         bool corrupt = !f.oti.empty();
-        Domain d = in_domain(sc.s->codec, sc.s->m, f.k, f.r, f.E, f.N1, f.pseed);
+        uint32_t adv_k = 0, adv_n = 0;
+        if (sc.s->codec == C_RS8 || sc.s->codec == C_LDPC) {
+            status(&sc, "ctrl", false);
+            uint32_t vk = 0, vn = 0;
+            if (ad_ctrl_u32(sc.h, 1, &vk, sc.s->id) == 0 && ad_ctrl_u32(sc.h, 2, &vn, sc.s->id) == 0) { adv_k = vk; adv_n = vn; }
+            status_done(); res.lib_calls += 2;
+            if ((adv_k && adv_k != (sc.s->codec == C_RS8 ? 255u : 50000u)) || (adv_n && adv_n != (sc.s->codec == C_RS8 ? 255u : 50000u))) count("advertised_limits_differ_from_default");
+        }
+        Domain d = in_domain(sc.s->codec, sc.s->m, f.k, f.r, f.E, f.N1, f.pseed, adv_k, adv_n);
         status(&sc, "setp", corrupt || !d.inside);
         cb_target = &sc;            // an even-N1 LDPC decoder may already decode (and call back) while it is being configured
         int st = ad_set_params(sc.h, sc.s->codec, &p, 0, sc.s->id);
@@ -579,6 +599,7 @@ struct Executor {
         if (corrupt) count("oti_corrupted:" + f.oti);
         trace_step(sc, "SETP", -1, st, 0, x);
         if (st == 0 && !d.inside && sc.s->codec == C_LDPC && sc.s->role == R_ENC) nullsym_selfcheck(sc);
+        if (st == 0 && d.inside) materialise(*sc.fc);
         if (st != 0 || !d.inside || !sc.fc->ok) { if (st == 0 && d.inside) count("accepted_not_materialised"); return; }   // unusable from here: only RELEASE applies
         sc.configured = true;
         sc.k = f.k; sc.r = f.r; sc.n = f.k + f.r; sc.E = f.E;
